@@ -499,11 +499,11 @@ func (rm *RegistrationManager) NewRegistrationC2SWrapper(c2sw *pb.C2SWrapper, in
 	reg.registrationAddr = clientAddr
 	reg.regCC, err = rm.GeoIP.CC(reg.registrationAddr)
 	if err != nil {
-		return nil, fmt.Errorf("failed geoip cc lookup: %w", err)
+		return nil, fmt.Errorf("failed geoip cc lookup: %w", generalizeErr(err))
 	}
 	reg.regASN, err = rm.GeoIP.ASN(reg.registrationAddr)
 	if err != nil {
-		return nil, fmt.Errorf("failed geoip asn lookup: %w", err)
+		return nil, fmt.Errorf("failed geoip asn lookup: %w", generalizeErr(err))
 	}
 
 	if dstPort != -1 {
@@ -566,7 +566,7 @@ func handleConnectingTpReg(regManager *RegistrationManager, reg *DecoyRegistrati
 
 				cc, err := regManager.GeoIP.CC(reg.registrationAddr)
 				if err != nil {
-					logger.Errorln("Failed to get CC:", err)
+					logger.Errorln("Failed to get CC:", generalizeErr(err))
 					return
 				}
 
@@ -574,7 +574,7 @@ func handleConnectingTpReg(regManager *RegistrationManager, reg *DecoyRegistrati
 				if cc != "unk" {
 					asn, err = regManager.GeoIP.ASN(reg.registrationAddr)
 					if err != nil {
-						logger.Errorln("Failed to get ASN:", err)
+						logger.Errorln("Failed to get ASN:", generalizeErr(err))
 						return
 					}
 				}
